@@ -4,7 +4,9 @@ C19 — property theorems for the line readers (statements, short derivations fr
 `Proofs.lean`, non-vacuity examples).
 
 Texts / contents are `List Nat` (code points / bytes; 10 = LF, 13 = CR).  Everything is
-for ALL texts, contents and block sizes ≥ 1.  `json.loads` is a parameter `parse`.
+for ALL texts, contents and block sizes ≥ 1.  `json.loads` is an ARBITRARY function `parse`
+(no assumption on it: since the `fix:` that strips the line break before decoding, both directions
+hand it the same bytes).
 -/
 namespace C19
 
@@ -19,6 +21,23 @@ theorem lineEndings_denote :
     Generated.lineEndings.idxOf [13, 10] < Generated.lineEndings.idxOf [13] := by decide
 
 theorem lineEndings_eq_E : Generated.lineEndings = E := rfl
+
+/-- the two byte sets `JSONLIterator.next` strips from a line (regenerated on every run by running
+    the current code with `json.loads` replaced by a recorder): the end set contains LF and CR — all
+    the JSONL theorems need — and the front set contains space and tab (blank lines) -/
+theorem stripSets_denote :
+    10 ∈ Generated.rstripSet ∧ 13 ∈ Generated.rstripSet ∧
+    32 ∈ Generated.lstripSet ∧ 9 ∈ Generated.lstripSet ∧
+    32 ∈ Generated.lstripSetT ∧ 9 ∈ Generated.lstripSetT := by decide
+
+/-- the break sets the SPEC side uses (`strBreak` for `str.splitlines`, `bytesBreak` for
+    `bytes.splitlines`) are the ones of the running interpreter: the two tables are regenerated on
+    every run by evaluating `splitlines` on every code point / byte value -/
+theorem pySplit_tables :
+    (∀ c, strBreak c = Generated.strBreakSet.contains c) ∧
+    (∀ c, bytesBreak c = Generated.bytesBreakSet.contains c) := by
+  constructor <;> intro c <;> rw [Bool.eq_iff_iff] <;>
+    simp [strBreak, bytesBreak, Generated.strBreakSet, Generated.bytesBreakSet, or_assoc]
 
 /-! ## iter_splitlines -/
 
@@ -61,6 +80,63 @@ theorem no_break_one_line (t : List Nat) (hne : t ≠ []) (h : ∀ c ∈ t, line
   rw [lineEndings_eq_E, scan_none _ _ _ (splitFirst_none_of t h)]
   simp [hne]
 
+/-! ## indent (the other user of the scan) -/
+
+/-- `iter_splitlines` never yields a lone empty string: the empty text has no lines, every other
+    text has a non-empty line or at least two lines -/
+theorem splitlines_ne_single_empty (t : List Nat) : iterSplitlines t ≠ [[]] := by
+  rw [splitlines_eight_forms]
+  exact splitFin_ne_singleton_nil t
+
+/-- `iter_splitlines` undoes `'\n'.join`: for any lines without line-break characters (other than the
+    lone `['']`, which joins to the empty text) -/
+theorem splitlines_join (ls : List (List Nat)) (hb : ∀ l ∈ ls, ∀ c ∈ l, lineBreakChar c = false)
+    (hne : ls ≠ [[]]) : iterSplitlines (joinWith [10] ls) = ls := by
+  rw [splitlines_eight_forms]
+  exact splitFin_join ls hb hne
+
+/-- `indent(text, margin, newline, key)` is the `newline`-join of the lines of the text — the
+    eight-form split plus the final empty line — with the margin put before the lines `key` selects -/
+theorem indent_spec (key : List Nat → Bool) (m nl t : List Nat) :
+    indent key m nl t = joinWith nl
+      ((eightSplitlines t ++ (if endsWithBreak t then [[]] else [])).map
+        fun l => if key l then m ++ l else l) := by
+  unfold indent
+  rw [splitlines_eight_forms]
+
+/-- hence indenting changes no line structure: the lines of `indent(text, margin)` (default
+    newline, any key, margin without line breaks) are the lines of the text, each with its margin -/
+theorem indent_lines (key : List Nat → Bool) (m t : List Nat)
+    (hm : ∀ c ∈ m, lineBreakChar c = false) :
+    iterSplitlines (indent key m [10] t) =
+      (iterSplitlines t).map fun l => if key l then m ++ l else l := by
+  unfold indent
+  apply splitlines_join
+  · intro l hl c hc
+    obtain ⟨l0, hl0, rfl⟩ := List.mem_map.mp hl
+    have h0 : ∀ c ∈ l0, lineBreakChar c = false := by
+      obtain ⟨p, hp, rfl⟩ := List.mem_map.mp hl0
+      exact (no_other_splits t p hp).1
+    split at hc
+    · rcases List.mem_append.mp hc with hc | hc
+      · exact hm c hc
+      · exact h0 c hc
+    · exact h0 c hc
+  · intro h
+    have hlen : (iterSplitlines t).length = 1 := by
+      have := congrArg List.length h
+      simpa using this
+    match hi : iterSplitlines t, hlen with
+    | [l0], _ =>
+      rw [hi] at h
+      simp only [List.map_cons, List.map_nil, List.cons.injEq, and_true] at h
+      have : l0 = [] := by
+        split at h
+        · exact (List.append_eq_nil_iff.mp h).2
+        · exact h
+      subst this
+      exact splitlines_ne_single_empty t hi
+
 /-! ## reverse_iter_lines -/
 
 /-- for every block size ≥ 1 the loop yields the lines of the content — `bytes.splitlines()` plus a
@@ -78,9 +154,16 @@ theorem reverse_lines_separated (c : List Nat) (bs : Nat) (hbs : 1 ≤ bs)
     reverseIterLines c bs = (sepLines c).reverse := by
   rw [reverse_lines c bs hbs, linesOf_eq_sepLines c hcr hne]
 
+/-- nothing is lost or invented: for a content without CR, the yielded lines put back in file order
+    and joined by LF are the content, for every block size -/
+theorem reverse_lines_rejoin (c : List Nat) (bs : Nat) (hbs : 1 ≤ bs) (hne : c ≠ [])
+    (h : ∀ x ∈ c, x ≠ 13) : joinWith [10] (reverseIterLines c bs).reverse = c := by
+  rw [reverse_lines_separated c bs hbs hne (noLoneCR_of_noCR c h), List.reverse_reverse,
+    sepLines_rejoin c h]
+
 /-- an empty file has no lines -/
 theorem reverse_lines_empty (bs : Nat) : reverseIterLines [] bs = [] := by
-  simp [reverseIterLines, revLoop, flush]
+  simp [reverseIterLines, revLoop, revLoopS, flush]
 
 /-- identical result for every block size (from 1 byte to larger than the file) -/
 theorem blocksize_independent (c : List Nat) (bs₁ bs₂ : Nat) (h₁ : 1 ≤ bs₁) (h₂ : 1 ≤ bs₂) :
@@ -100,119 +183,362 @@ theorem reverse_lines_unbroken (c : List Nat) (bs : Nat) (hbs : 1 ≤ bs) :
     · simp at hl; subst hl; intro x hx; cases hx
     · cases hl
 
+/-- INDEPENDENCE FROM THE READ PARTITION, not only from the block size: whatever number of bytes
+    (at least one) each round of the loop reads — a constant block size, block-aligned reads, a
+    different size in every round — the loop yields the same lines -/
+theorem reverse_lines_any_schedule (c : List Nat) (rs : Nat → Nat) (hrs : ∀ p, 1 ≤ rs p) :
+    revLoopS c rs c.length c.length [] = (linesOf c).reverse := by
+  rw [revLoopS_spec c rs hrs c.length c.length [] (Nat.le_refl _)]
+  simp
+
+theorem schedule_independent (c : List Nat) (rs₁ rs₂ : Nat → Nat)
+    (h₁ : ∀ p, 1 ≤ rs₁ p) (h₂ : ∀ p, 1 ≤ rs₂ p) :
+    revLoopS c rs₁ c.length c.length [] = revLoopS c rs₂ c.length c.length [] := by
+  rw [reverse_lines_any_schedule c rs₁ h₁, reverse_lines_any_schedule c rs₂ h₂]
+
+/-- e.g. reading on block boundaries (first read `len % bs` bytes, then whole aligned blocks)
+    gives what the code's "blocks counted from the end of the file" gives -/
+theorem aligned_reads_same (c : List Nat) (bs : Nat) (hbs : 1 ≤ bs) :
+    revLoopS c (alignedRead bs) c.length c.length [] = reverseIterLines c bs := by
+  rw [reverse_lines_any_schedule c _ (alignedRead_pos bs hbs), reverse_lines c bs hbs]
+
+/-- `preseek=False` with the file position at `p`: the lines of the first `p` bytes, last to first
+    (relative reverse line generation), for every block size -/
+theorem reverse_lines_from_position (c : List Nat) (p bs : Nat) (hbs : 1 ≤ bs) :
+    reverseIterLinesFrom c p bs = (linesOf (c.take p)).reverse := by
+  unfold reverseIterLinesFrom
+  rw [revLoop_spec c bs hbs _ _ [] (Nat.le_refl _)]
+  simp [List.take_eq_take_min]
+
+/-- … which is `reverse_iter_lines` of the truncated file -/
+theorem reverse_from_position_eq_prefix (c : List Nat) (p bs : Nat) (hbs : 1 ≤ bs) :
+    reverseIterLinesFrom c p bs = reverseIterLines (c.take p) bs := by
+  rw [reverse_lines_from_position c p bs hbs, reverse_lines _ bs hbs]
+
+/-- content with multi-byte characters / text mode: when the file holds well-formed UTF-8, every
+    line the loop yields is well-formed UTF-8, so `line.decode('utf-8')` cannot fail and no line
+    begins or ends inside a character — for every block size, also one that cuts every character
+    in pieces (`sp = false`: the strict codec; `sp = true`: with lone surrogates allowed) -/
+theorem reverse_lines_decodable (sp : Bool) (c : List Nat) (bs : Nat) (hbs : 1 ≤ bs)
+    (hv : validUtf8G sp c = true) : ∀ l ∈ reverseIterLines c bs, validUtf8G sp l = true := by
+  rw [reverse_lines c bs hbs]
+  intro l hl
+  simp only [List.mem_reverse, linesOf, List.mem_append] at hl
+  rcases hl with hl | hl
+  · refine aux_lines_valid sp bytesBreak ?_ c.length c false (Nat.le_refl _) hv l hl
+    intro x hx
+    simp [bytesBreak] at hx
+    omega
+  · split at hl
+    · simp at hl; subst hl; simp [validUtf8G]
+    · cases hl
+
+/-- TEXT MODE: decoding commutes with the split.  If the file content decodes (as UTF-8) to the
+    text `t`, then the lines `reverse_iter_lines` yields, each decoded, are exactly the lines of
+    `t` — split at LF, CR, CR LF only (never at VT, FF, NEL, U+2028 … inside a line), plus the final
+    empty line when `t` ends with LF — last to first, for every block size -/
+theorem reverse_lines_text (sp : Bool) (c t : List Nat) (bs : Nat) (hbs : 1 ≤ bs)
+    (hd : decodeG sp c = some t) :
+    (reverseIterLines c bs).map (decodeG sp) = (linesOf t).reverse.map some := by
+  rw [reverse_lines c bs hbs, List.map_reverse, List.map_reverse]
+  congr 1
+  unfold linesOf bytesSplitlines
+  rw [List.map_append, List.map_append, decode_lines sp c.length c (Nat.le_refl _) false t hd,
+    (decodeG_noBrk_last sp c.length c (Nat.le_refl _) t hd).2]
+  split <;> simp [decodeG_nil]
+
+/-- in particular no `line.decode()` of the text-mode path can fail on a file that decodes -/
+theorem reverse_lines_text_no_error (c t : List Nat) (bs : Nat) (hbs : 1 ≤ bs)
+    (hd : decodeG false c = some t) : ∀ x ∈ reverseIterLinesText c bs, x ≠ none := by
+  unfold reverseIterLinesText
+  rw [reverse_lines_text false c t bs hbs hd]
+  intro x hx
+  simp only [List.mem_map] at hx
+  obtain ⟨l, _, rfl⟩ := hx
+  simp
+
+/-- text files in a SINGLE-BYTE encoding (latin-1, cp1252, …: a decoding `g` byte by byte that maps
+    LF to LF, CR to CR and nothing else to them): the yielded lines, decoded, are the lines of the
+    decoded text, last to first, for every block size -/
+theorem reverse_lines_single_byte_codec (g : Nat → Nat)
+    (h10 : ∀ c, (g c == 10) = (c == 10)) (h13 : ∀ c, (g c == 13) = (c == 13))
+    (c : List Nat) (bs : Nat) (hbs : 1 ≤ bs) :
+    (reverseIterLines c bs).map (·.map g) = (linesOf (c.map g)).reverse := by
+  have hb : ∀ x, bytesBreak (g x) = bytesBreak x := by
+    intro x; simp only [bytesBreak, h10, h13]
+  have hnl : ∀ x, isNL (g x) = isNL x := by
+    intro x; simp only [isNL, h10]
+  rw [reverse_lines c bs hbs, List.map_reverse]
+  congr 1
+  unfold linesOf bytesSplitlines endsNL
+  rw [aux_map bytesBreak g hb h10 h13, lastIs_map isNL g hnl, List.map_append]
+  split <;> simp
+
 /-! ## JSONLIterator -/
 
 variable {α ε : Type}
 
 /-- forward mode over a binary file, `ignore_errors=True`: exactly the objects of the non-blank,
     decodable LF/CRLF-separated lines, in order, and no error -/
-theorem jsonl_forward_binary (parse : List Nat → Except ε α) (hp : IgnoresBreak parse)
+theorem jsonl_forward_binary (ws : Nat → Bool) (parse : List Nat → Except ε α)
     (c : List Nat) (hcr : noLoneCR c = true) :
-    jsonlForwardB parse true c = ((sepLines c).filterMap (objOf parse), none) := by
+    jsonlForwardB ws parse true c = ((sepLines c).filterMap (objOf ws parse), none) := by
   unfold jsonlForwardB
   rw [consume_ignore, ← filterMap_fileLinesB',
-    filterMap_rel parse hp _ _ (fileLinesB'_rel c hcr)]
+    filterMap_rel ws parse _ _ (fileLinesB'_rel c hcr)]
 
 /-- forward mode over a text-mode file (universal newlines), `ignore_errors=True` -/
-theorem jsonl_forward_text (parse : List Nat → Except ε α) (hp : IgnoresBreak parse) (c : List Nat) :
-    jsonlForwardT parse true c = ((bytesSplitlines c).filterMap (objOf parse), none) := by
+theorem jsonl_forward_text (ws : Nat → Bool) (parse : List Nat → Except ε α) (c : List Nat) :
+    jsonlForwardT ws parse true c = ((bytesSplitlines c).filterMap (objOf ws parse), none) := by
   unfold jsonlForwardT bytesSplitlines
-  rw [consume_ignore, filterMap_rel parse hp _ _ (fileLinesT_rel false c)]
+  rw [consume_ignore, filterMap_rel ws parse _ _ (fileLinesT_rel false c)]
 
 /-- reverse mode, any block size ≥ 1, `ignore_errors=True` -/
-theorem jsonl_reverse (parse : List Nat → Except ε α) (c : List Nat) (bs : Nat) (hbs : 1 ≤ bs) :
-    jsonlReverse parse true bs c = (((bytesSplitlines c).filterMap (objOf parse)).reverse, none) := by
+theorem jsonl_reverse (ws : Nat → Bool) (parse : List Nat → Except ε α) (c : List Nat) (bs : Nat) (hbs : 1 ≤ bs) :
+    jsonlReverse ws parse true bs c = (((bytesSplitlines c).filterMap (objOf ws parse)).reverse, none) := by
   unfold jsonlReverse
   rw [consume_ignore, reverse_lines c bs hbs, List.filterMap_reverse, filterMap_linesOf]
 
 /-- reverse mode yields the objects of forward mode, reversed — text-mode files, every content,
     whatever the file size relative to the block size -/
-theorem jsonl_forward_reverse_text (parse : List Nat → Except ε α) (hp : IgnoresBreak parse)
+theorem jsonl_forward_reverse_text (ws : Nat → Bool) (parse : List Nat → Except ε α)
     (c : List Nat) (bs : Nat) (hbs : 1 ≤ bs) :
-    jsonlReverse parse true bs c = ((jsonlForwardT parse true c).1.reverse, none) := by
-  rw [jsonl_reverse parse c bs hbs, jsonl_forward_text parse hp c]
+    jsonlReverse ws parse true bs c = ((jsonlForwardT ws parse true c).1.reverse, none) := by
+  rw [jsonl_reverse ws parse c bs hbs, jsonl_forward_text ws parse c]
 
 /-- … and binary files whose lines are LF- or CRLF-separated -/
-theorem jsonl_forward_reverse_binary (parse : List Nat → Except ε α) (hp : IgnoresBreak parse)
+theorem jsonl_forward_reverse_binary (ws : Nat → Bool) (parse : List Nat → Except ε α)
     (c : List Nat) (hcr : noLoneCR c = true) (bs : Nat) (hbs : 1 ≤ bs) :
-    jsonlReverse parse true bs c = ((jsonlForwardB parse true c).1.reverse, none) := by
-  rw [jsonl_reverse parse c bs hbs, jsonl_forward_binary parse hp c hcr, ← filterMap_linesOf]
+    jsonlReverse ws parse true bs c = ((jsonlForwardB ws parse true c).1.reverse, none) := by
+  rw [jsonl_reverse ws parse c bs hbs, jsonl_forward_binary ws parse c hcr, ← filterMap_linesOf]
   by_cases hne : c = []
   · subst hne; simp [linesOf_nil, sepLines, objOf_nil]
   · rw [linesOf_eq_sepLines c hcr hne]
 
 /-- reverse mode does not depend on the block size, with or without `ignore_errors` -/
-theorem jsonl_blocksize_independent (parse : List Nat → Except ε α) (ig : Bool) (c : List Nat)
+theorem jsonl_blocksize_independent (ws : Nat → Bool) (parse : List Nat → Except ε α) (ig : Bool) (c : List Nat)
     (bs₁ bs₂ : Nat) (h₁ : 1 ≤ bs₁) (h₂ : 1 ≤ bs₂) :
-    jsonlReverse parse ig bs₁ c = jsonlReverse parse ig bs₂ c := by
+    jsonlReverse ws parse ig bs₁ c = jsonlReverse ws parse ig bs₂ c := by
   unfold jsonlReverse
   rw [blocksize_independent c bs₁ bs₂ h₁ h₂]
 
 /-- without `ignore_errors`: if forward mode gets through the file without an error, so does
     reverse mode, with the same objects reversed (binary, LF/CRLF-separated) -/
-theorem jsonl_strict_forward_reverse_binary (parse : List Nat → Except ε α) (hp : IgnoresBreak parse)
+theorem jsonl_strict_forward_reverse_binary (ws : Nat → Bool) (parse : List Nat → Except ε α)
     (c : List Nat) (hcr : noLoneCR c = true) (bs : Nat) (hbs : 1 ≤ bs)
-    (hok : (jsonlForwardB parse false c).2 = none) :
-    jsonlReverse parse false bs c = ((jsonlForwardB parse false c).1.reverse, none) := by
-  have h1 : AllOk parse (fileLinesB c) := allOk_of_consume_strict parse _ hok
-  have h2 : AllOk parse (fileLinesB' c) := by
+    (hok : (jsonlForwardB ws parse false c).2 = none) :
+    jsonlReverse ws parse false bs c = ((jsonlForwardB ws parse false c).1.reverse, none) := by
+  have h1 : AllOk ws parse (fileLinesB c) := allOk_of_consume_strict ws parse _ hok
+  have h2 : AllOk ws parse (fileLinesB' c) := by
     unfold fileLinesB'
     intro l hl
     rcases List.mem_append.mp hl with hl | hl
     · exact h1 l hl
     · split at hl
-      · simp at hl; subst hl; exact okLine_nil parse
+      · simp at hl; subst hl; exact okLine_nil ws parse
       · cases hl
-  have h3 : AllOk parse (sepLines c) := (allOk_rel parse hp _ _ (fileLinesB'_rel c hcr)).mp h2
-  have h4 : AllOk parse (reverseIterLines c bs) := by
+  have h3 : AllOk ws parse (sepLines c) := (allOk_rel ws parse _ _ (fileLinesB'_rel c hcr)).mp h2
+  have h4 : AllOk ws parse (reverseIterLines c bs) := by
     by_cases hne : c = []
     · subst hne; rw [reverse_lines_empty]; intro l hl; cases hl
-    · rw [reverse_lines_separated c bs hbs hne hcr]; exact (allOk_reverse parse _).mpr h3
+    · rw [reverse_lines_separated c bs hbs hne hcr]; exact (allOk_reverse ws parse _).mpr h3
   unfold jsonlReverse jsonlForwardB
-  rw [consume_strict_of_allOk parse _ h4, consume_strict_of_allOk parse _ h1]
-  exact jsonl_forward_reverse_binary parse hp c hcr bs hbs
+  rw [consume_strict_of_allOk ws parse _ h4, consume_strict_of_allOk ws parse _ h1]
+  exact jsonl_forward_reverse_binary ws parse c hcr bs hbs
 
 /-- … and forward mode raises exactly when reverse mode does -/
-theorem jsonl_strict_error_iff_binary (parse : List Nat → Except ε α) (hp : IgnoresBreak parse)
+theorem jsonl_strict_error_iff_binary (ws : Nat → Bool) (parse : List Nat → Except ε α)
     (c : List Nat) (hcr : noLoneCR c = true) (bs : Nat) (hbs : 1 ≤ bs) :
-    (jsonlForwardB parse false c).2 = none ↔ (jsonlReverse parse false bs c).2 = none := by
+    (jsonlForwardB ws parse false c).2 = none ↔ (jsonlReverse ws parse false bs c).2 = none := by
   constructor
-  · intro h; rw [jsonl_strict_forward_reverse_binary parse hp c hcr bs hbs h]
+  · intro h; rw [jsonl_strict_forward_reverse_binary ws parse c hcr bs hbs h]
   · intro h
-    have h4 : AllOk parse (reverseIterLines c bs) := allOk_of_consume_strict parse _ h
-    have h1 : AllOk parse (fileLinesB c) := by
+    have h4 : AllOk ws parse (reverseIterLines c bs) := allOk_of_consume_strict ws parse _ h
+    have h1 : AllOk ws parse (fileLinesB c) := by
       by_cases hne : c = []
       · subst hne; intro l hl; simp [fileLinesB] at hl
       · rw [reverse_lines_separated c bs hbs hne hcr] at h4
-        have h3 : AllOk parse (sepLines c) := (allOk_reverse parse _).mp h4
-        have h2 := (allOk_rel parse hp _ _ (fileLinesB'_rel c hcr)).mpr h3
+        have h3 : AllOk ws parse (sepLines c) := (allOk_reverse ws parse _).mp h4
+        have h2 := (allOk_rel ws parse _ _ (fileLinesB'_rel c hcr)).mpr h3
         intro l hl
         exact h2 l (by unfold fileLinesB'; exact List.mem_append.mpr (Or.inl hl))
     unfold jsonlForwardB
-    rw [consume_strict_of_allOk parse _ h1, consume_ignore]
+    rw [consume_strict_of_allOk ws parse _ h1, consume_ignore]
 
 /-- the same for text-mode files, every content -/
-theorem jsonl_strict_forward_reverse_text (parse : List Nat → Except ε α) (hp : IgnoresBreak parse)
+theorem jsonl_strict_forward_reverse_text (ws : Nat → Bool) (parse : List Nat → Except ε α)
     (c : List Nat) (bs : Nat) (hbs : 1 ≤ bs)
-    (hok : (jsonlForwardT parse false c).2 = none) :
-    jsonlReverse parse false bs c = ((jsonlForwardT parse false c).1.reverse, none) := by
-  have h1 : AllOk parse (fileLinesT false c) := allOk_of_consume_strict parse _ hok
-  have h3 : AllOk parse (bytesSplitlines c) := (allOk_rel parse hp _ _ (fileLinesT_rel false c)).mp h1
-  have h4 : AllOk parse (reverseIterLines c bs) := by
+    (hok : (jsonlForwardT ws parse false c).2 = none) :
+    jsonlReverse ws parse false bs c = ((jsonlForwardT ws parse false c).1.reverse, none) := by
+  have h1 : AllOk ws parse (fileLinesT false c) := allOk_of_consume_strict ws parse _ hok
+  have h3 : AllOk ws parse (bytesSplitlines c) := (allOk_rel ws parse _ _ (fileLinesT_rel false c)).mp h1
+  have h4 : AllOk ws parse (reverseIterLines c bs) := by
     rw [reverse_lines c bs hbs]
-    apply (allOk_reverse parse _).mpr
+    apply (allOk_reverse ws parse _).mpr
     unfold linesOf
     intro l hl
     rcases List.mem_append.mp hl with hl | hl
     · exact h3 l hl
     · split at hl
-      · simp at hl; subst hl; exact okLine_nil parse
+      · simp at hl; subst hl; exact okLine_nil ws parse
       · cases hl
   unfold jsonlReverse jsonlForwardT
-  rw [consume_strict_of_allOk parse _ h4, consume_strict_of_allOk parse _ h1]
-  exact jsonl_forward_reverse_text parse hp c bs hbs
+  rw [consume_strict_of_allOk ws parse _ h4, consume_strict_of_allOk ws parse _ h1]
+  exact jsonl_forward_reverse_text ws parse c bs hbs
+
+/-- blank lines are skipped: a line made only of characters `.lstrip()` strips (space, tab, …),
+    with or without its line break, contributes no object and no error -/
+theorem jsonl_blank_skipped (ws : Nat → Bool) (parse : List Nat → Except ε α) (ig : Bool) (l : List Nat)
+    (hl : ∀ c ∈ l, ws c = true) (ls : List (List Nat)) :
+    consume ws parse ig (l :: ls) = consume ws parse ig ls ∧
+    consume ws parse ig ((l ++ [10]) :: ls) = consume ws parse ig ls ∧
+    consume ws parse ig ((l ++ [13, 10]) :: ls) = consume ws parse ig ls := by
+  have h0 : lineNorm ws l = [] := lineNorm_blank ws l hl
+  have h1 : lineNorm ws (l ++ [10]) = [] := by rw [lineNorm_rel ws _ l (Or.inr (Or.inl rfl)), h0]
+  have h2 : lineNorm ws (l ++ [13, 10]) = [] := by rw [lineNorm_rel ws _ l (Or.inr (Or.inr rfl)), h0]
+  refine ⟨?_, ?_, ?_⟩ <;> rw [consume] <;> simp [h0, h1, h2]
+
+/-- both directions hand `json.loads` the same bytes for a line, whether the line iterator
+    delivered it with its line break (forward) or without (reverse) -/
+theorem jsonl_same_bytes_decoded (ws : Nat → Bool) (l : List Nat) :
+    lineNorm ws (l ++ [10]) = lineNorm ws l ∧ lineNorm ws (l ++ [13, 10]) = lineNorm ws l :=
+  ⟨lineNorm_rel ws _ l (Or.inr (Or.inl rfl)), lineNorm_rel ws _ l (Or.inr (Or.inr rfl))⟩
+
+/-- TEXT MODE end to end: for a file whose content decodes to the text `t`, reverse mode as the code
+    does it (byte lines found backwards, each decoded, then `next`) is reverse mode over `t` itself —
+    so every `…_text` theorem above applies with `t` (a list of code points) as the content and
+    `str.lstrip`'s character set as `ws` -/
+theorem jsonl_text_reverse_decoded (ws : Nat → Bool) (parse : List Nat → Except ε α) (ig : Bool)
+    (c t : List Nat) (bs : Nat) (hbs : 1 ≤ bs) (hd : decodeG false c = some t) :
+    jsonlReverseText ws parse ig bs c = jsonlReverse ws parse ig bs t := by
+  unfold jsonlReverseText jsonlReverse reverseIterLinesText
+  rw [reverse_lines_text false c t bs hbs hd, reverse_lines t bs hbs]
+  congr 1
+  simp [List.filterMap_map]
+
+/-- hence: reverse mode over a text-mode file yields the objects of forward mode (universal
+    newlines over the decoded text), reversed -/
+theorem jsonl_text_forward_reverse (ws : Nat → Bool) (parse : List Nat → Except ε α)
+    (c t : List Nat) (bs : Nat) (hbs : 1 ≤ bs) (hd : decodeG false c = some t) :
+    jsonlReverseText ws parse true bs c = ((jsonlForwardT ws parse true t).1.reverse, none) := by
+  rw [jsonl_text_reverse_decoded ws parse true c t bs hbs hd, jsonl_forward_reverse_text ws parse t bs hbs]
+
+/-! ## every `next()` call, errors included (strict mode resumed after an error) -/
+
+/-- a plain `for` loop over the iterator sees the `next()` results up to the first error -/
+theorem jsonl_drain_is_prefix_of_outcomes (ws : Nat → Bool) (parse : List Nat → Except ε α) (ig : Bool) (ls : List (List Nat)) :
+    consume ws parse ig ls = untilError (outcomes ws parse ig ls) :=
+  consume_eq_untilError ws parse ig ls
+
+/-- the full statement for strict mode, with NO hypothesis on where errors occur: the sequence of
+    `next()` results — objects AND raised errors, the iteration being resumed after each error — in
+    reverse mode is the forward sequence reversed (binary, LF/CRLF-separated; any block size) -/
+theorem jsonl_outcomes_forward_reverse_binary (ws : Nat → Bool) (parse : List Nat → Except ε α) (ig : Bool)
+    (c : List Nat) (hcr : noLoneCR c = true) (bs : Nat) (hbs : 1 ≤ bs) :
+    outcomes ws parse ig (reverseIterLines c bs) = (outcomes ws parse ig (fileLinesB c)).reverse := by
+  unfold outcomes
+  rw [reverse_lines c bs hbs, List.filterMap_reverse]
+  congr 1
+  by_cases hne : c = []
+  · subst hne; simp [linesOf_nil, fileLinesB]
+  · rw [linesOf_eq_sepLines c hcr hne, ← filterMap_fileLinesB'G _ (outcomeOf_nil ws parse ig),
+      filterMap_relG _ (outcomeOf_rel ws parse ig) _ _ (fileLinesB'_rel c hcr)]
+
+/-- the same for text-mode files, every content -/
+theorem jsonl_outcomes_forward_reverse_text (ws : Nat → Bool) (parse : List Nat → Except ε α) (ig : Bool)
+    (c : List Nat) (bs : Nat) (hbs : 1 ≤ bs) :
+    outcomes ws parse ig (reverseIterLines c bs) = (outcomes ws parse ig (fileLinesT false c)).reverse := by
+  unfold outcomes
+  rw [reverse_lines c bs hbs, List.filterMap_reverse]
+  congr 1
+  rw [filterMap_linesOfG _ (outcomeOf_nil ws parse ig),
+    filterMap_relG _ (outcomeOf_rel ws parse ig) _ _ (fileLinesT_rel false c)]
+  rfl
+
+/-! ## `cur_byte_pos` (forward mode, binary file) -/
+
+/-- one position per object of a plain loop -/
+theorem cur_byte_pos_per_object (ws : Nat → Bool) (parse : List Nat → Except ε α) (ig : Bool) (c : List Nat) :
+    (jsonlForwardPosB ws parse ig c).length = (jsonlForwardB ws parse ig c).1.length :=
+  consumePos_length ws parse ig 0 (fileLinesB c)
+
+/-- `cur_byte_pos` read after each object is strictly increasing, lies in `1 … size`, and always
+    stands at the end of a line (just after a LF, or at the end of the file) -/
+theorem cur_byte_pos_increasing (ws : Nat → Bool) (parse : List Nat → Except ε α) (ig : Bool) (c : List Nat) :
+    List.Pairwise (· < ·) (jsonlForwardPosB ws parse ig c) ∧
+    ∀ q ∈ jsonlForwardPosB ws parse ig c,
+      0 < q ∧ q ≤ c.length ∧ (q = c.length ∨ endsNL (c.take q) = true) := by
+  have h := consumePos_spec ws parse ig c.length [] c (Nat.le_refl _)
+  simpa [jsonlForwardPosB] using h
+
+/-! ## JSONLIterator with `rel_seek` (text-mode files of single-byte characters) -/
+
+/-- `_align_to_newline` puts the file ON the first line break at or after the target offset — or,
+    when there is none and the code stops at the end of the file (`eofOk`), at the end -/
+theorem align_to_newline_spec (eofOk : Bool) (c : List Nat) (target p : Nat) (ht : target ≤ c.length)
+    (h : alignToNewlineE eofOk c target = some p) :
+    target ≤ p ∧
+    ((∃ x b', c.drop p = x :: b' ∧ bytesBreak x = true) ∨ (eofOk = true ∧ p = c.length)) ∧
+    ∀ x ∈ (c.drop target).take (p - target), bytesBreak x = false := by
+  unfold alignToNewlineE at h
+  cases hi : firstBreak (c.drop target) with
+  | none =>
+    rw [hi] at h
+    cases eofOk with
+    | false => simp at h
+    | true =>
+      simp only [if_true, Option.some.injEq] at h
+      subst h
+      refine ⟨ht, Or.inr ⟨rfl, rfl⟩, ?_⟩
+      intro x hx
+      exact firstBreak_none _ hi x (List.mem_of_mem_take hx)
+  | some i =>
+    rw [hi] at h
+    simp only [Option.some.injEq] at h
+    subst h
+    obtain ⟨⟨x, b', h1, h2⟩, h3⟩ := firstBreak_spec _ i hi
+    refine ⟨by omega, Or.inl ⟨x, b', ?_, h2⟩, ?_⟩
+    · rw [← h1, List.drop_drop]
+    · have : target + i - target = i := by omega
+      rw [this]; exact h3
+
+/-- forward and reverse iteration started with the same `rel_seek` share out the objects of the
+    file: what reverse mode yields (read backwards from the aligned position), reversed, followed by
+    what forward mode yields (read from there on), is what a plain forward pass yields — nothing is
+    lost or seen twice, for every block size (`ignore_errors=True`), whichever way the code treats
+    a target after the last line break -/
+theorem jsonl_rel_seek_partition (eofOk : Bool) (ws : Nat → Bool) (parse : List Nat → Except ε α)
+    (c : List Nat) (target bs : Nat) (hbs : 1 ≤ bs) (ht : target ≤ c.length) (f r : List α × Option ε)
+    (hf : jsonlRelSeekE eofOk ws parse true false bs c target = some f)
+    (hr : jsonlRelSeekE eofOk ws parse true true bs c target = some r) :
+    (jsonlForwardT ws parse true c).1 = r.1.reverse ++ f.1 ∧ f.2 = none ∧ r.2 = none := by
+  unfold jsonlRelSeekE at hf hr
+  cases hp : alignToNewlineE eofOk c target with
+  | none => rw [hp] at hf; simp at hf
+  | some p =>
+    rw [hp] at hf hr
+    simp only [Bool.false_eq_true, if_false, if_true, Option.some.injEq] at hf hr
+    subst hf hr
+    obtain ⟨_, hcase, _⟩ := align_to_newline_spec eofOk c target p ht hp
+    rw [consume_ignore, consume_ignore, reverse_lines_from_position c p bs hbs,
+      List.filterMap_reverse, filterMap_linesOf, jsonl_forward_text ws parse c]
+    refine ⟨?_, rfl, rfl⟩
+    simp only [List.reverse_reverse]
+    rcases hcase with ⟨x, b', hd, hx⟩ | ⟨_, rfl⟩
+    · rw [filterMap_rel ws parse _ _ (fileLinesT_rel false (c.drop p))]
+      have hc : c = c.take p ++ x :: b' := by rw [← hd, List.take_append_drop]
+      conv => lhs; rw [hc]
+      rw [filterMap_cut_at_break ws parse _ x b' hx, hd]
+      rfl
+    · simp [fileLinesT]
 
 /-! ## non-vacuity -/
+
+/-- front-strip sets for the examples (the theorems hold for any; the regenerated tables of the
+    running code are `pyWs` / `pyWsT`): space and tab, and for text lines also NBSP -/
+def toyWs (c : Nat) : Bool := c == 32 || c == 9
+def toyWsT (c : Nat) : Bool := c == 32 || c == 9 || c == 160
+
 
 -- "a b<U+2028>c<CR><LF>": breaks of two kinds, ends with a break; ' 2','8' would be split by the old typo
 example : iterSplitlines [97, 32, 50, 56, 8232, 99, 13, 10] = [[97, 32, 50, 56], [99], []] := by decide
@@ -231,18 +557,78 @@ example : reverseIterLines [10, 98] 1 = [[98], []] := by decide
 -- a lone CR is a break for the code (bytes.splitlines) but not for `sepLines`: hypothesis needed
 example : reverseIterLines [97, 13, 98] 1 ≠ (sepLines [97, 13, 98]).reverse := by decide
 
-/-- a toy `json.loads` for the examples: strips trailing CR/LF, then accepts exactly the line "3" -/
+/-- a toy `json.loads` for the examples: accepts exactly the text "3" — it does NOT tolerate a
+    trailing line break, and need not: `next` strips it in both directions -/
 def toyParse (l : List Nat) : Except Unit Nat :=
-  if (l.reverse.dropWhile (fun c => c == 10 || c == 13)).reverse = [51] then .ok 3 else .error ()
-
-example : IgnoresBreak toyParse := by
-  intro x
-  simp [toyParse, List.reverse_append, List.dropWhile_cons]
+  if l = [51] then .ok 3 else .error ()
 
 -- "\n3\n \nx\r\n3\n": blank lines, a corrupt line, CRLF; block size 5 (the former failure)
-example : jsonlForwardB toyParse true [10, 51, 10, 32, 10, 120, 13, 10, 51, 10] = ([3, 3], none) := by decide
-example : jsonlReverse toyParse true 5 [10, 51, 10, 32, 10, 120, 13, 10, 51, 10] = ([3, 3], none) := by decide
-example : (jsonlForwardB toyParse false [10, 51, 10, 32, 10, 51, 10]).2 = none := by decide
-example : (jsonlForwardB toyParse false [10, 51, 10, 120, 10, 51, 10]) = ([3], some ()) := by decide
+example : jsonlForwardB toyWs toyParse true [10, 51, 10, 32, 10, 120, 13, 10, 51, 10] = ([3, 3], none) := by decide
+example : jsonlReverse toyWs toyParse true 5 [10, 51, 10, 32, 10, 120, 13, 10, 51, 10] = ([3, 3], none) := by decide
+example : (jsonlForwardB toyWs toyParse false [10, 51, 10, 32, 10, 51, 10]).2 = none := by decide
+example : (jsonlForwardB toyWs toyParse false [10, 51, 10, 120, 10, 51, 10]) = ([3], some ()) := by decide
+
+-- the former defect C19-jsonl-break-dependent-decoding: a line with a NUL byte, b"\x001\n"
+example : lineNorm toyWs [0, 49, 10] = [0, 49] ∧ lineNorm toyWs [0, 49] = [0, 49] := by decide
+example : lineNorm toyWs [32, 9, 51, 13, 13, 10] = [51] := by decide
+example : ∀ c ∈ [32, 9, 32], toyWs c = true := by decide
+-- read schedules: block size 3 from the end reads 1+3+3 bytes last, aligned reads 3+3+1
+example : revLoopS [10, 195, 169, 13, 10, 98, 10] (alignedRead 3) 7 7 [] = [[], [98], [195, 169], []] := by decide
+example : reverseIterLines [10, 195, 169, 13, 10, 98, 10] 3 = [[], [98], [195, 169], []] := by decide
+example : ∀ p, 1 ≤ alignedRead 3 p := alignedRead_pos 3 (by decide)
+-- preseek=False from the middle of "a\nb\nc": position 3 (just after the 'b')
+example : reverseIterLinesFrom [97, 10, 98, 10, 99] 3 2 = [[98], [97]] := by decide
+example : reverseIterLinesFrom [97, 10, 98, 10, 99] 4 2 = [[], [98], [97]] := by decide
+
+-- indent("a\n\nb\n", "  "): the blank line and the final empty line get no margin
+example : indent keyBool [32, 32] [10] [97, 10, 10, 98, 10] = [32, 32, 97, 10, 10, 32, 32, 98, 10] := by decide
+example : iterSplitlines (indent keyBool [32, 32] [10] [97, 10, 10, 98, 10]) = [[32, 32, 97], [], [32, 32, 98], []] := by decide
+-- the exception in `splitlines_join` is real: '\n'.join(['']) = '' has no lines
+example : iterSplitlines (joinWith [10] [[]]) = [] := by decide
+-- and so is the margin hypothesis of `indent_lines`: a margin with a line break adds lines
+example : iterSplitlines (indent keyBool [10] [10] [97]) ≠ (iterSplitlines [97]).map (fun l => if keyBool l then [10] ++ l else l) := by decide
+
+-- "é\n日" (c3 a9 0a e6 97 a5) read one byte at a time: both lines come back whole
+example : strictUtf8 [195, 169, 10, 230, 151, 165] = true := by decide
+example : reverseIterLines [195, 169, 10, 230, 151, 165] 1 = [[230, 151, 165], [195, 169]] := by decide
+-- the strict codec rejects a lone surrogate (ed a0 80), the surrogatepass one accepts it
+example : strictUtf8 [237, 160, 128] = false ∧ validUtf8 [237, 160, 128] = true := by decide
+
+-- rel_seek: "3\n3\r\nx\n3" from offset 2 (inside the second record): aligned ON the CR at offset 3
+example : alignToNewlineE false [51, 10, 51, 13, 10, 120, 10, 51] 2 = some 3 := by decide
+example : jsonlRelSeekE false toyWs toyParse true false 4096 [51, 10, 51, 13, 10, 120, 10, 51] 2 = some ([3], none) := by decide
+example : jsonlRelSeekE false toyWs toyParse true true 4096 [51, 10, 51, 13, 10, 120, 10, 51] 2 = some ([3, 3], none) := by decide
+example : (jsonlForwardT toyWs toyParse true [51, 10, 51, 13, 10, 120, 10, 51]).1 = [3, 3, 3] := by decide
+-- no line break after the target: the alignment loop of the code as it is does not end (outside the
+-- model); a code that stops at the end of the file leaves reverse mode everything, forward mode nothing
+example : alignToNewlineE false [51, 10, 51] 2 = none := by decide
+example : alignToNewlineE true [51, 10, 51] 2 = some 3 := by decide
+example : jsonlRelSeekE true toyWs toyParse true true 4096 [51, 10, 51] 2 = some ([3, 3], none) ∧
+    jsonlRelSeekE true toyWs toyParse true false 4096 [51, 10, 51] 2 = some ([], none) := by decide
+
+-- "a<U+2028>é\nb" as UTF-8, read 2 bytes at a time: the text lines are ["a<U+2028>é", "b"]
+example : decodeG false [97, 226, 128, 168, 195, 169, 10, 98] = some [97, 8232, 233, 10, 98] := by decide
+example : reverseIterLinesText [97, 226, 128, 168, 195, 169, 10, 98] 2 = [some [98], some [97, 8232, 233]] := by decide
+example : decodeG false [237, 160, 128] = none ∧ decodeG true [237, 160, 128] = some [55296] := by decide
+
+-- strict mode resumed after the error on "x": forward 3, error, 3 — reverse the same backwards
+example : (outcomes toyWs toyParse false (fileLinesB [51, 10, 120, 10, 51, 10])).map Except.toOption
+    = [some 3, none, some 3] := by decide
+example : (outcomes toyWs toyParse false (reverseIterLines [51, 10, 120, 10, 51, 10] 2)).map Except.toOption
+    = [some 3, none, some 3] := by decide
+example : untilError (outcomes toyWs toyParse false (fileLinesB [51, 10, 120, 10, 51, 10])) = ([3], some ()) := by decide
+
+-- cur_byte_pos on "3\n\nx\r\n3\n  3": after the records: offsets 2, 8 and 11 (= size)
+example : jsonlForwardPosB toyWs toyParse true [51, 10, 10, 120, 13, 10, 51, 10, 32, 32, 51] = [2, 8, 11] := by decide
+
+-- text mode: "<NBSP>3\n3" (c2 a0 33 0a 33): str.lstrip removes the NBSP, bytes.lstrip would not
+example : jsonlReverseText toyWsT toyParse true 2 [194, 160, 51, 10, 51] = ([3, 3], none) := by decide
+example : (jsonlReverse toyWs toyParse true 2 [194, 160, 51, 10, 51]).1 = [3] := by decide
+
+-- "a\n\nb\n": the lines [b"", b"b", b"", b"a"] reversed and joined by LF give the content back
+example : joinWith [10] (reverseIterLines [97, 10, 10, 98, 10] 2).reverse = [97, 10, 10, 98, 10] := by decide
+
+-- latin-1 is such a decoding (the identity on byte values): "é\nb" = e9 0a 62
+example : (reverseIterLines [233, 10, 98] 1).map (·.map id) = [[98], [233]] := by decide
 
 end C19
